@@ -1237,6 +1237,49 @@ fn space_fifo(cs: &mut Vec<Case>, class: &'static str) {
 
 // ---------------------------------------------------------------------------------------------
 // I. close / disconnect against every kind of blocked waiter
+/// Two threads close one fresh channel at the same instant, `rounds` times (a new channel each round).
+/// Returns (rounds in which both close() calls returned Ok, rounds in which neither did, rounds).
+fn racing_closes(cap: Option<usize>, d: u32) -> (usize, usize, usize) {
+    use std::sync::atomic::{AtomicU8, AtomicUsize};
+    let rounds: usize = if cfg!(miri) { 3 } else { 2000 };
+    let mk = || match cap {
+        Some(n) => kanal::bounded::<u8>(n),
+        None => kanal::unbounded::<u8>(),
+    };
+    let chans: Arc<Vec<(kanal::Sender<u8>, kanal::Receiver<u8>)>> = Arc::new((0..rounds).map(|_| mk()).collect());
+    let oks: Arc<Vec<AtomicU8>> = Arc::new((0..rounds).map(|_| AtomicU8::new(0)).collect());
+    let arrive = Arc::new(AtomicUsize::new(0));
+    let mut hs = vec![];
+    for t in 0..2u32 {
+        let (chans, oks, arrive) = (chans.clone(), oks.clone(), arrive.clone());
+        let via_receiver = (d >> t) & 1 == 1;
+        hs.push(std::thread::spawn(move || {
+            for r in 0..rounds {
+                arrive.fetch_add(1, Ordering::AcqRel);
+                let mut spins = 0u32;
+                while arrive.load(Ordering::Acquire) < 2 * (r + 1) {
+                    spins += 1;
+                    if cfg!(miri) || spins % 256 == 0 {
+                        std::thread::yield_now();
+                    } else {
+                        std::hint::spin_loop();
+                    }
+                }
+                let ok = if via_receiver { chans[r].1.close().is_ok() } else { chans[r].0.close().is_ok() };
+                if ok {
+                    oks[r].fetch_add(1, Ordering::AcqRel);
+                }
+            }
+        }));
+    }
+    for h in hs {
+        let _ = h.join();
+    }
+    let both = oks.iter().filter(|o| o.load(Ordering::Acquire) == 2).count();
+    let none = oks.iter().filter(|o| o.load(Ordering::Acquire) == 0).count();
+    (both, none, rounds)
+}
+
 fn fam_closedisc<T: Payload>(c: &Case, cx: &mut Ctx) -> Outcome {
     let mut sc = Scn::<T>::new(c.cap, c.d & 4 == 4, c.seed);
     let recv_side = c.a % 2 == 0;
@@ -1264,6 +1307,12 @@ fn fam_closedisc<T: Payload>(c: &Case, cx: &mut Ctx) -> Outcome {
             for op in [Op::TrySend, Op::TryRecv, Op::Len, Op::SenderCount, Op::ReceiverCount, Op::IsClosed, Op::Drain, Op::SendTimeout(100), Op::RecvTimeout(100), Op::ASend, Op::ARecv] {
                 sc.mexec(op);
             }
+            // close racing with close (seeded change Y3): two threads leave a spin barrier together and
+            // close the same fresh channel, many rounds; in every round exactly one close() may report Ok.
+            // Logical verdict (a count), no clock involved.
+            let (both, none, rounds) = racing_closes(c.cap, c.d);
+            sc.expect(both == 0 && none == 0, "C10", || format!("close() racing with close() on one channel: in {} of {} rounds both calls returned Ok and in {} rounds neither did; exactly one close may succeed", both, rounds, none));
+            cell(cx, "closedisc/close-races-close".to_string());
         }
         1 => {
             sc.mexec(dropop);
